@@ -676,6 +676,15 @@ func templateDir(cfg *Cfg) string {
 	return fmt.Sprintf("%s/chain-template-n%d-c%v-b%v", base, cfg.net(), cfg.CompressUTXO, cfg.CompressBlocks)
 }
 
+// Prepare builds the template directory of the case's option set (if it does not exist yet) outside the case's
+// own simulation bubble.
+func (H) Prepare(t *testing.T, c *hx.Case) {
+	cfg := &Cfg{}
+	if json.Unmarshal(c.Cfg, cfg) == nil {
+		ensureTemplate(cfg, &hx.Outcome{})
+	}
+}
+
 // ensureTemplate builds (once per child process and option set) a data directory holding the prefix.
 // Runs the real gocoin code under the simulator with a quiet schedule.
 func ensureTemplate(cfg *Cfg, out *hx.Outcome) string {
@@ -1291,6 +1300,9 @@ func (r *run) boot() {
 	utxo.UTXO_SKIP_SAVE_BLOCKS = cfg.SkipSave
 	r.n = Boot(r.dir, NodeOpts{P: cfg.P, Genesis: cfg.genesis(), CompressBlocks: cfg.CompressBlocks, CacheBlocks: cfg.CacheBlocks,
 		MaxFileSize: uint64(cfg.MaxFileKB) << 10, ClientRecovery: cfg.ClientRecovery, LibraryTail: cfg.Testnet4, RealAlloc: cfg.RealAlloc})
+	if r.n.ParseTillLeft && !r.bad {
+		r.viol("client.network-held-after-replay", "the client's start-up replay of stored blocks ended without reaching the block it was heading for (a stored block failed on the way) and common.Last.ParseTill stays set: the main loop skips every network tick while it is (\"hold on network for now\"), so the node stays deaf until it is restarted (tip %s)", hs(r.n.Ch.LastBlock().BlockHash.Hash))
+	}
 	if cfg.TrustChecker {
 		// as client/txpool does for transactions it has verified itself (same wtxid): script checks are skipped
 		// for THESE transactions only
